@@ -14,6 +14,7 @@ func allChecks() []*Check {
 				{Pkg: "client", Func: "VerifSession", Sched: true, Quick: map[string]int{"N": 3, "SW": 1, "KINDS": 0, "TRACK": 0}, Thorough: map[string]int{"N": 3, "SW": 2, "KINDS": 0, "TRACK": 0}, Asserts: []string{"fg-handlers-of-different-lines-never-overlap", "fg-handlers-in-wire-order", "CONNECTED-after-welcome-applied", "CONNECTED-before-any-later-line", "later-line-only-after-CONNECTED-finished", "DISCONNECTED-only-after-fg-handlers-finished", "DISCONNECTED-exactly-once", "every-handler-of-every-line-exactly-once"}},
 				{Pkg: "client", Func: "VerifSession", Sched: true, Quick: map[string]int{"N": 3, "SW": 1, "KINDS": 0, "TRACK": 0, "EARLY": 1}, Thorough: map[string]int{"N": 3, "SW": 2, "KINDS": 0, "TRACK": 0, "EARLY": 1}, Asserts: []string{"DISCONNECTED-only-after-fg-handlers-finished", "DISCONNECTED-exactly-once", "fg-handlers-in-wire-order"}, Note: "disconnect while lines are being processed"},
 				{Pkg: "client", Func: "VerifC01Deliver", Quick: map[string]int{"LONG": 1, "VBL": 1, "TL": 1}, Thorough: map[string]int{"LONG": 1, "VBL": 2, "TL": 2}, Asserts: []string{"delivered-equal", "next-line-delivered"}, Note: "a line longer than the read buffer, followed by another"},
+				{Pkg: "client", Func: "VerifSession", Sched: true, Quick: map[string]int{"N": 3, "SW": 1, "KINDS": 0, "TRACK": 0, "FRAG": 1}, Thorough: map[string]int{"N": 4, "SW": 2, "KINDS": 0, "TRACK": 0, "FRAG": 1}, Asserts: []string{"fg-handlers-in-wire-order", "DISCONNECTED-exactly-once"}, Note: "the server hangs up mid-stream: the last line arrives without CR-LF, then EOF"},
 				{Pkg: "client", Func: "VerifC03Burst", Sched: true, Quick: map[string]int{"LINES": 40, "SW": 1, "KINDS": 0}, Thorough: map[string]int{"LINES": 70, "SW": 1, "KINDS": 1}, Asserts: []string{"burst:every-line-delivered-once", "burst:delivered-in-wire-order"}, Note: "more lines in one read than the internal queue holds, behind a held handler"},
 			},
 			Bounds: map[string]string{"quick": "a scripted session of 3 lines (001 changing the nick, own JOIN, PING; thorough adds another user's JOIN and a PRIVMSG; names symbolic) over the real Connect/recv/runLoop/dispatch/Close with 2 foreground + 1 background handler per verb and CONNECTED/DISCONNECTED handlers; the byte stream cut into reads in 4 ways (whole, mid-line, between CR and LF, at a line boundary); one designated handler invocation returns / yields mid-way; ended by server EOF, one Close, or two Closes racing EOF, after delivery or while lines are in flight; goroutine schedules: the deterministic run-until-block schedule plus every schedule within 1 deviation (delay bound 1) at block points, select choices and explicit yields; foreground handlers reply with Raw; a 4200-byte line through recv; a burst of 40 lines in one read (more than the 32-slot internal queue) behind a held foreground handler, delay bound 1",
@@ -27,6 +28,7 @@ func allChecks() []*Check {
 			Harnesses: []Harness{
 				{Pkg: "client", Func: "VerifSession", Sched: true, Quick: map[string]int{"N": 3, "SW": 1, "KINDS": 0, "TRACK": 1}, Thorough: map[string]int{"N": 3, "SW": 2, "KINDS": 0, "TRACK": 1}, Asserts: []string{"tracker-reflects-the-line-at-handler-entry", "tracker-not-ahead-while-fg-handler-runs"}},
 				{Pkg: "client", Func: "VerifSession", Sched: true, Quick: map[string]int{"N": 3, "SW": 1, "KINDS": 0, "TRACK": 1, "SCRIPT": 1}, Thorough: map[string]int{"N": 5, "SW": 1, "KINDS": 0, "TRACK": 1, "SCRIPT": 1}, Asserts: []string{"tracker-reflects-the-line-at-handler-entry", "tracker-not-ahead-while-fg-handler-runs"}, Note: "tracker-centred script: own JOIN, other JOIN, NICK, MODE +o, TOPIC; handlers read channel snapshots"},
+				{Pkg: "client", Func: "VerifSession", Sched: true, Quick: map[string]int{"N": 3, "SW": 1, "KINDS": 0, "TRACK": 1, "SCRIPT": 1, "FRAG": 1}, Thorough: map[string]int{"N": 4, "SW": 2, "KINDS": 0, "TRACK": 1, "SCRIPT": 1, "FRAG": 1}, Asserts: []string{"tracker-reflects-the-line-at-handler-entry", "fg-handlers-in-wire-order"}, Note: "the server hangs up mid-stream: the last line arrives without CR-LF, then EOF"},
 				{Pkg: "client", Func: "VerifC05Internal", Asserts: []string{"state-handler-is-internal", "state-handler-not-in-user-sets"}},
 			},
 			Bounds:      map[string]string{"quick": "the C03 session (3 lines: 001 changing the nick, own JOIN creating the channel, another user's JOIN) with state tracking on: every foreground and background user handler checks at entry that the tracker reflects its line, and a foreground handler that yields mid-way checks that the next line is not applied yet; schedules within delay bound 1; a second, tracker-centred script (own JOIN, another user's JOIN, that user's NICK; thorough adds MODE +o and TOPIC) where the handlers read the channel snapshot and compute which line the tracker has reached; plus: every state handler is registered in the internal set only", "thorough": "3 lines with delay bound 2; tracker-centred script of 5 lines with delay bound 1"},
